@@ -20,15 +20,20 @@ BaseOf(pairs) == [k \in Keys |-> IF \E i \in 1..Len(pairs) : pairs[i][1] = k
 
 TraceInit == /\ l = 1
              /\ base = [k \in Keys |-> Nil] /\ base0 = base /\ ref = base
-             /\ inner = [k \in Keys |-> Nil] /\ touched = {} /\ hist = <<>>
+             /\ inner = [k \in Keys |-> Nil] /\ touched = {} /\ hist = <<>> /\ bopen = FALSE /\ bops = <<>>
 
 TReset == /\ IsEvent("Reset")
           /\ base' = BaseOf(Trace[l].base) /\ base0' = base' /\ ref' = base'
-          /\ inner' = [k \in Keys |-> Nil] /\ touched' = {} /\ hist' = <<>>
+          /\ inner' = [k \in Keys |-> Nil] /\ touched' = {} /\ hist' = <<>> /\ bopen' = FALSE /\ bops' = <<>>
 
 TSet == IsEvent("Set") /\ Set(Trace[l].k, Trace[l].v)
 TDelete == IsEvent("Delete") /\ Delete(Trace[l].k)
 TBatch == IsEvent("Batch") /\ Batch(Trace[l].ops)
+TBOpen == IsEvent("BOpen") /\ BOpen
+TBSet == IsEvent("BSet") /\ BQueue([op |-> "set", k |-> Trace[l].k, v |-> Trace[l].v])
+TBDel == IsEvent("BDel") /\ BQueue([op |-> "del", k |-> Trace[l].k, v |-> Nil])
+TBWrite == IsEvent("BWrite") /\ BWrite
+TBDiscard == IsEvent("BDiscard") /\ BDiscard
 
 (* an observation is explained iff it is what the reference store returns *)
 ObsOk(o) == /\ \A i \in 1..Len(o.get) : o.get[i][2] = ref[o.get[i][1]]
@@ -41,7 +46,7 @@ TObs == /\ IsEvent("Obs")
         /\ ObsOk(Trace[l])
         /\ UNCHANGED vars
 
-TraceNext == TReset \/ TSet \/ TDelete \/ TBatch \/ TObs
+TraceNext == TReset \/ TSet \/ TDelete \/ TBatch \/ TObs \/ TBOpen \/ TBSet \/ TBDel \/ TBWrite \/ TBDiscard
 TraceSpec == TraceInit /\ [][TraceNext]_tvars
 
 TraceAccepted ==
